@@ -28,11 +28,11 @@ AirFails(e) ==
   ELSE IF e.err # "" THEN <<"C20.symbols">>
   ELSE
   LET symOK == \A pl \in 0..255 : e.nsym[pl + 1] = PayloadSymbols(pl, e.sf, e.cr, e.hdr, e.ldro)
-      \* |lib - formula| <= (#symbols + preamble + 2) ns, compared as  lib*BW  vs  numerator  (no division)
+      \* |lib - formula| <= (#symbols + preamble + 6) ns, compared as  lib*BW  vs  numerator  (no division)
       airOK == \A pl \in 0..255 :
                  LET n == e.nsym[pl + 1]
                      num == AirNumerator(e.pre, n, e.sf)
-                     tol == FromNat(n + e.pre + 2)
+                     tol == FromNat(n + e.pre + 6)     \* < 1 ns lost per symbol incl. the 4.25 preamble symbols, + 1 for the preamble division
                      lo == MulSmall(e.air[pl + 1], e.bw)
                      hi == MulSmall(Add(e.air[pl + 1], tol), e.bw)
                  IN  LE(lo, num) /\ LE(num, hi)
